@@ -175,6 +175,19 @@ def cpair(*xs) -> str:
 CASES_PER_FILE = 250
 
 
+def _mem_gb() -> float:
+    try:
+        for line in open("/proc/meminfo"):
+            if line.startswith("MemAvailable:"):
+                return int(line.split()[1]) / 2**20
+    except OSError:
+        pass
+    return 16.0
+
+
+COQ_WORKERS = max(2, min(NCPU, int((_mem_gb() - 14) // 6)))
+
+
 def _coqc_file(path: Path) -> tuple[int, str]:
     # memory and time caps: a cases file that blows up must fail, not take the machine down
     r = subprocess.run(["bash", "-c", 'ulimit -v 6000000; exec timeout 300 coqc -Q "$0" Pamiq "$1"', str(COQ), str(path)],
@@ -202,7 +215,9 @@ def coq_verdicts(prop, items: list[tuple[int, str]], tag: str = "cases") -> tupl
         f.write_text("\n".join(body) + "\n")
         files.append(f)
     disagree, fail, errs = set(), set(), []
-    with concurrent.futures.ThreadPoolExecutor(max_workers=NCPU) as ex:
+    # at most COQ_WORKERS coqc processes at a time: each may use up to its 6 GB cap (cases files made from very long traces
+    # do), and the machine must not run out of memory - a check that is killed reports nothing
+    with concurrent.futures.ThreadPoolExecutor(max_workers=COQ_WORKERS) as ex:
         for f, (rc, out) in zip(files, ex.map(_coqc_file, files)):
             m = re.search(r"=\s*\(\s*(\[[^\]]*\])\s*,\s*(\[[^\]]*\])\s*\)", out, flags=re.S)
             if rc != 0 or not m:
